@@ -293,9 +293,12 @@ func run(c *core.Ctx) {
 				return
 			}
 			caseNo, ok := c.Begin()
+			in := Input{Scenario: sc, Prefix: prefix}
+			if !ok && caseNo < c.Resume {
+				return
+			}
 			c.Exec()
 			c.StateN(1)
-			in := Input{Scenario: sc, Prefix: prefix}
 			if !ok {
 				c.Outcome("FAIL:" + c.Fatal(caseNo))
 				c.Fail(caseNo, nil, c.Fatal(caseNo), in, "no race report, no fatal error", "the worker died on this schedule (see the driver's log)")
@@ -363,7 +366,10 @@ func stress(c *core.Ctx) {
 		rounds = 400
 	}
 	for r := 0; r < rounds && !c.Expired(); r++ {
-		caseNo, _ := c.Begin()
+		caseNo, run := c.Begin()
+		if c.Skip(caseNo, run, Input{Scenario: Scenario{Kind: "stress"}, Prefix: []int{r}}) {
+			continue
+		}
 		problem := stressRound(r)
 		c.Exec()
 		c.Validate()
@@ -452,7 +458,7 @@ func fingerprint(problem string) string {
 
 func init() {
 	core.Register(&core.Prop{
-		ID: "C19", Variant: "sched", Shards: shards, Run: run, Replay: replay,
+		ID: "C19", Variant: "sched", NoResume: true, Shards: shards, Run: run, Replay: replay,
 		Rule:        "closed programs of 2-3 goroutines over the real library with its sync import redirected to a cooperative-scheduler shim (every lock operation is a scheduling point, a blocked acquire is disabled, no enabled goroutine = deadlock): (readers) one processed 2-module set shared by goroutines issuing reader operations - ToEntry cache hits, Find of grafted and deep nodes, Namespace, first-time and repeated InstantiatingModule / FindModuleByNamespace for the same, different and unknown namespaces, ReadOnly, DefaultValues, GetErrors, Print, full dump - in all multisets of three operations and in 2x2 sequences; (pipelines) goroutines each loading, processing and dumping their own module set. Every schedule within the preemption bound is executed under Go's race detector, whose view is not disturbed by the scheduler (hand-offs are raw syscalls in norace code); each goroutine's results must equal the sequential results. states = schedules executed; transitions = scheduling decisions; non-trivial = scenarios with more than one distinct schedule",
 		Assumptions: []string{"scheduling points are lock operations; unsynchronised accesses between them are left to the race detector, which reports conflicting accesses not ordered by the library's own synchronisation in any explored schedule", "memory-model reorderings between two non-synchronising instructions are not permuted"},
 	})
